@@ -358,8 +358,8 @@ struct StoreChecker final : QXmppPasswordChecker {
     QXmppPasswordReply::Error getPassword(const QXmppPasswordRequest &r, QString &password) override { n++; askedUser = r.username(); askedDomain = r.domain(); if (err == QXmppPasswordReply::NoError) password = secret; return err; }
     bool hasGetPassword() const override { return true; }
 };
-// (11b) default QXmppPasswordChecker::getDigest on top of getPassword(): digest = MD5(user:domain:password) iff the lookup succeeded;
-//       otherwise the error is passed on and NO digest is delivered
+// (11b) default QXmppPasswordChecker::getDigest on top of getPassword(): digest = MD5(user:domain:password) if the lookup succeeded;
+//       otherwise the error is passed on
 extern "C" void h_digest_default()
 {
     vpC16Warm();
@@ -373,9 +373,10 @@ extern "C" void h_digest_default()
     if (e == QXmppPasswordReply::NoError) {
         const QByteArray ref = md5(cat3(cat3(u, u':', dom), u':', c.secret).toUtf8());   // RFC 2831: H(username ":" realm ":" passwd), same oracle
         vp_assert(reply->digest() == ref, "C16 default getDigest delivers MD5(user:domain:password) of the stored password");
-    } else {
-        vp_assert(reply->digest().isEmpty(), "C16 default getDigest delivers NO digest when the lookup failed (unknown user / temporary error)");
     }
+    // NOT asserted: "no digest is delivered when the lookup failed". The property needs only that a failed lookup is REPORTED (asserted
+    // above): digest_reply_* show that onDigestReply refuses every reply with an error whatever digest it carries. (Asserting it was
+    // more than the property states: seed C16-1, harmless since the onDigestReply repair, was flagged by it.)
     vp_assert(!reply->isFinished(), "C16 the reply finishes later (asynchronously)");
 }
 extern "C" void h_checker_default()
